@@ -29,7 +29,9 @@ def run(prop, spec, units, seed):
             w2 = dict(w)
             # a `contains` witness pins a piece of output text, which depends on the layout: it is used at the widths it was written for;
             # every other oracle is independent of the layout and is swept over all widths
-            if w.get("kind") != "cli" and w.get("oracle", "tree") != "contains": w2.setdefault("sweep", (1, 200))
+            # (witnesses of more than 20 kB — the escape grid — are swept over a few widths only: their literals do not depend on the layout)
+            if w.get("kind") != "cli" and w.get("oracle", "tree") != "contains":
+                w2.setdefault("sweep", (1, 200) if len(w.get("src") or "") < 20000 else (118, 121))
             v, j = replay.run_witness(w2)
             n += 1
             if v:
